@@ -108,4 +108,22 @@ func parseAttributeOthers
   ensures text.rdOK(reader)
   modifies text.rdRep, text.rdLive, text.rdLine, text.rdStart, text.rdStop, text.rdPad, text.rdRem, byteSink
   loop 0 inv 0 <= i && i <= len(line)
+
+func (*thematicBreakPraser).Open
+  requires text.rdOK(reader) && text.rdLive(reader)
+  ensures [line] lineKept(reader)
+func (*thematicBreakPraser).Continue
+  requires text.rdOK(reader)
+  ensures [line] lineKept(reader)
+
+// block quote marker: up to three columns of indentation, '>', optionally one following space (or one column of a tab)
+func (*blockquoteParser).process
+  requires text.rdOK(reader) && text.rdLive(reader) && text.plainReader(reader)
+  ensures [line] lineKept(reader)
+func (*blockquoteParser).Open
+  requires text.rdOK(reader) && text.rdLive(reader) && text.plainReader(reader)
+  ensures [line] lineKept(reader)
+func (*blockquoteParser).Continue
+  requires text.rdOK(reader) && text.rdLive(reader) && text.plainReader(reader)
+  ensures [line] lineKept(reader)
 @*/
